@@ -144,6 +144,23 @@ def run(ctx):
             r3.check(not expect, f"_validate_external_instances[{desc}]", "unique xml-/csv-external names pass", ve.loc())
         except Raised as r:
             r3.check(expect and "PyXFormError" in r.mro, f"_validate_external_instances[{desc}]", "duplicate external instance names are rejected", ve.loc())
+    # which selects count as search() selects: the function may appear anywhere in the appearance cell
+    ris = scls.methods["_redirect_is_search_itext"]
+    from .c07 import _mk as _mk7
+    for app, want in (("search('x')", True), ("minimal search('x')", True), ("quick search('t', 'contains', 'c', ${v})", True), ("search('x') minimal", True),
+                      ("minimal", False), ("", False), (None, False), ("searchable minimal", False), ("field-list", False)):
+        opts_s = tuple(_mk7(ctx, ocls, f"o{i}", label=f"L{i}", media=None) for i in range(2))
+        iset = Obj(icls, {"name": "lst", "options": opts_s, "requires_itext": False, "used_by_search": False}, name="itemset")
+        el = _mk7(ctx, mq, "s1", control={"appearance": app} if app is not None else {}, itemset="lst", choices=iset, list_name="lst", type="select one")
+        it = ctx.interp("C09.R3")
+        it.reset([])
+        try:
+            res = it.call_function(ris, [Obj(scls, {}, name="survey")], {"element": el}, None, None)
+        except Raised as e:
+            res = f"raises {e.exc_name}"
+        r3.check(res is want and iset.attrs.get("used_by_search") is want, f"search select[appearance={app!r}]",
+                 f"{'is' if want else 'is not'} rendered with inline items (and its list {'is' if want else 'is not'} marked search-only)", ris.loc(),
+                 why_fail=f"returned {res!r}, used_by_search={iset.attrs.get('used_by_search')!r}")
     rules.append(r3)
 
     # ------------------------------------------------------------------ R4
@@ -214,6 +231,23 @@ def run(ctx):
         ("itext list", {"choices": Obj(icls, {"name": "lst", "options": (), "requires_itext": True, "used_by_search": False}, name="iset")},
          ("instance('lst')/root/item", [("value", "name"), ("label", "jr:itext(itextId)")])),
     ]
+    # file type x parameter subset: value/label default to name/label (id/title for geojson) and each is overridden by
+    # exactly its own parameter, whatever other parameters are present
+    import itertools as _it
+    for ext, (dv, dl) in ((".csv", ("name", "label")), (".xml", ("name", "label")), (".geojson", ("id", "title"))):
+        for use_v, use_l, rnd in _it.product((False, True), (False, True), (None, "true", "false")):
+            params = {}
+            if rnd is not None:
+                params["randomize"] = rnd
+            if use_v:
+                params["value"] = "code"
+            if use_l:
+                params["label"] = "caption"
+            ns = "instance('f')/root/item"
+            if rnd == "true":
+                ns = f"randomize({ns})"
+            cases.append((f"file{ext} parameters={sorted(params.items())}", {"itemset": "f" + ext, "parameters": params},
+                          (ns, [("value", "code" if use_v else dv), ("label", "caption" if use_l else dl)])))
     for desc, attrs, want in cases:
         try:
             got = run_bx(**attrs)
